@@ -348,6 +348,43 @@ fn read_matrix(e: &mut Eng, thorough: bool) {
     }
 }
 
+/// State reads of many keys: counts around the places where a batched read could switch, memory that fits exactly /
+/// is one word short, every op, pre and post views answering differently, values of mixed lengths.
+fn read_matrix_big(e: &mut Eng) {
+    let mut r = Rng::new(e.args.seed ^ 0xb16);
+    let base = vmgen::base_case(&mut r);
+    for (oi, op) in [KRNG, KREX, PKRNG, PKREX].into_iter().enumerate() {
+        for count in [63i64, 64, 65, 255, 256, 257, 513, 1000, 1024, 2047, 2048] {
+            for short in [0i64, 1] {
+                for dense in [false, true] {
+                    if !e.mine() {
+                        continue;
+                    }
+                    let mut c = base.clone();
+                    // dense: every key of the range holds a one-word value; otherwise only the keys of the default views
+                    if dense {
+                        let ca = if oi % 2 == 1 { vmgen::contract_b() } else { c.solutions[c.index].predicate_to_solve.contract.clone() };
+                        for k in 0..count {
+                            c.pre.entries.push((ca.clone(), vec![k], vec![7000 + k]));
+                            c.post.entries.push((ca.clone(), vec![k], vec![9000 + k]));
+                        }
+                    }
+                    let values = if dense { count } else { 16 };
+                    let need = 2 * count + values - short;
+                    let mut ops = vec![PUSH(need.max(0)), ALOC, POP];
+                    if oi % 2 == 1 {
+                        ops.extend(crate::model::word_4_from_u8_32(vmgen::contract_b().0).map(PUSH));
+                    }
+                    ops.extend([PUSH(0), PUSH(1), PUSH(count), PUSH(0), op, PUSH(1)]);
+                    c.stack = vec![71, 72];
+                    c.set_ops(&ops);
+                    e.run(&c, JudgeOpts { mapped: false, lockstep: true, eval: false }, "read-matrix");
+                }
+            }
+        }
+    }
+}
+
 fn access_matrix(e: &mut Eng, thorough: bool) {
     let mut r = Rng::new(e.args.seed ^ 0xcd);
     // several solutions, every index
@@ -389,6 +426,29 @@ fn access_matrix(e: &mut Eng, thorough: bool) {
                 ops.extend([PEX, PUSH(1), ALOC, STO, COME]);
                 e.run(&single(&ops, &base), JudgeOpts { mapped: true, lockstep: true, eval: false }, "access-matrix");
             }
+        }
+    }
+    // a set with 100 solutions (several per predicate address): every solution's pre-image must be found, from
+    // the first, a middle and the last index, also from within compute children
+    if e.mine() {
+        let mut base = vmgen::base_case(&mut r);
+        while base.solutions.len() < 100 {
+            let (s, _) = vmgen::default_solutions(&mut r);
+            base.solutions.extend(s);
+        }
+        base.solutions.truncate(100);
+        let hashes: Vec<[u8; 32]> = model::predicate_exists_hashes(&base.solutions).into_iter().collect();
+        for index in [0usize, 57, 99] {
+            base.index = index;
+            let mut ops = vec![THIS, THISC, DSLT, POP];
+            for h in hashes.iter().step_by(7) {
+                ops.extend(crate::model::word_4_from_u8_32(*h).map(PUSH));
+                ops.extend([PEX, POP]);
+            }
+            ops.extend([PUSH(70), COM]);
+            ops.extend(crate::model::word_4_from_u8_32(hashes[hashes.len() - 1]).map(PUSH));
+            ops.extend([PEX, PUSH(1), ALOC, STO, COME]);
+            e.run(&single(&ops, &base), JudgeOpts { mapped: false, lockstep: true, eval: false }, "access-matrix");
         }
     }
     // Sha256 for every byte length
@@ -628,6 +688,7 @@ pub fn run(args: &Args, rep: &mut Report) {
         }
         "C11" => {
             read_matrix(&mut e, thorough);
+            read_matrix_big(&mut e);
             random_cases(&mut e, Focus::StateRead, scale(30_000, 1_000_000), ls, &[], "random-reads");
         }
         "C07" => {
